@@ -304,6 +304,7 @@ class Explorer:
         self.witness_all = witness_all
         self.fork_check = fork_check
         self.stop_after_candidates = 8
+        self.n_candidates = 0
         self.witness_timeout_ms = witness_timeout_ms
         self.samples = []
         self.max_samples = max_samples
